@@ -914,8 +914,18 @@ func (r *runner) explainMissing(q Query, missing []map[string]any, driving []*F)
 			}
 			for _, l := range driving {
 				if len(l.Path) > 0 {
-					if _, found := jsonAt(row["j"], l.Path); !found {
+					v, found := jsonAt(row["j"], l.Path)
+					if !found {
 						return true
+					}
+					// an array or object at the path has index entries only BELOW the path, none at it:
+					// for a condition that such a value satisfies on the scan path (a negated operator
+					// without array quantifier) the document is as absent from the index as one without the path
+					if l.Arr == "" && (l.Cmp == "_ne" || l.Cmp == "_nin" || l.Cmp == "_nlike" || l.Cmp == "_nilike") {
+						switch v.(type) {
+						case map[string]any, []any:
+							return true
+						}
 					}
 				}
 			}
@@ -1009,6 +1019,18 @@ func (r *runner) explainMissing(q Query, missing []map[string]any, driving []*F)
 			// encoded as a plain scalar and matched against every leaf at any path
 			if len(l.Path) == 0 && l.Cmp != "_eq" && l.Cmp != "_in" {
 				add(sigJSONRootOnLeaves, func(row map[string]any) bool { return row["j"] != nil })
+			}
+			// equality (_eq / _in) of the JSON value itself with a scalar: the operand is encoded as a plain
+			// scalar, not as a JSON leaf at the empty path, so documents whose JSON value is that scalar are
+			// never found through the index
+			if len(l.Path) == 0 && (l.Cmp == "_eq" || l.Cmp == "_in") {
+				add(sigJSONRootScalarEq, func(row map[string]any) bool {
+					switch row["j"].(type) {
+					case nil, map[string]any, []any:
+						return false
+					}
+					return true
+				})
 			}
 			// _nlike / _nilike: the like matcher answers "no match" for any leaf that is not a string,
 			// whatever the negation, so documents holding a non-string scalar there are dropped
